@@ -279,6 +279,56 @@ def _name_enc_case(rng, enc=None):
     return dict(base, kind="name_enc", cls="name-fsenc-" + enc, enc=enc, expect_spec=True)
 
 
+LONG_COMMS = [b"gnome-keyring-d", b"kworker/u16:3-e", b"a) b) (c) S 1 2", b"caf\xc3\xa9-service-x", b"exactly15bytes!",
+              b"sixteen-bytes-xy", b"with space in n"]
+SHORT_COMMS = [b"sh", b"gnome-keyring", b"fourteen-bytes"]
+
+
+def _cmdlines_for(rng, comm):
+    """command lines around a comm: extending it, sharing only the prefix, not matching, chrome-style, empty, errors."""
+    c = comm
+    return [
+        (b"/usr/bin/" + c + b"aemon\x00--start\x00").hex(),           # extended name
+        (b"/opt/x/" + c + b"ump\x00").hex(),                          # another program sharing the first 15 bytes
+        (c + b"\x00").hex(),                                          # exactly the comm
+        (b"/usr/bin/python3\x00/usr/bin/" + c + b"aemon\x00").hex(),   # argv[0] does not match
+        (b"./" + c + b"-helper --type=renderer").hex(),               # blanks as separators, no trailing NUL
+        (c + b"zz one two\x00").hex(),                                # single NUL-terminated arg with blanks
+        (b"/" + c[:-1] + b"\x00").hex(),                              # one byte short of the comm
+        b"\x00".hex(), b" ".hex(), b"/\x00".hex(),
+        "",                                                           # empty (zombie / kernel thread)
+        "EACCES", "ESRCH", "ENOENT",
+    ]
+
+
+def _name_hist_case(rng):
+    comm = rng.choice(LONG_COMMS)[:rng.choice([15, 15, 15, 16])]
+    steps = []
+    n = rng.choice([2, 2, 3, 3, 4])
+    start = rng.choice([5000, 424242])
+    for i in range(n):
+        k = rng.random()
+        c = comm
+        if k < 0.12:
+            c = rng.choice(SHORT_COMMS)                               # renamed (prctl): no longer truncated
+        elif k < 0.2:
+            c = comm[:14] + b"X"                                      # differs in the 15th byte
+        cmd = rng.choice(_cmdlines_for(rng, comm))
+        state = "53"
+        if rng.random() < 0.2:
+            state, cmd = "5a", rng.choice(["", "", "ESRCH", "ENOENT", cmd])   # zombie: empty cmdline
+        stat = "data"
+        if i > 0 and rng.random() < 0.1:
+            stat = rng.choice(["gone", "denied"])
+            if stat == "gone":
+                cmd = rng.choice(["ENOENT", "ESRCH"])
+        if rng.random() < 0.15:
+            start += 1000                                             # PID reused by another program
+        steps.append({"comm": c.hex(), "state": state, "cmd": cmd, "stat": stat, "starttime": start,
+                      "touch": rng.sample(["str", "as_dict", "name", "repr"], rng.choice([0, 0, 1, 2]))})
+    return {"kind": "name_hist", "cls": "name-history-%d" % n, "pid": PID, "steps": steps, "expect_spec": True}
+
+
 def _mutate(rng, data):
     k = rng.random()
     if k < 0.3:   # truncate after some field
@@ -381,11 +431,11 @@ def gen_cases(rng, tier):
         c = _stat_case(rng, comm=b"st)ate (x", cls="stat-letter")
         c["state"] = st.hex()
         cases.append(c)
-    for _ in range(230 * n):
+    for _ in range(190 * n):
         cases.append(_stat_case(rng))
-    for _ in range(180 * n):
+    for _ in range(150 * n):
         cases.append(_status_case(rng))
-    for _ in range(110 * n):
+    for _ in range(90 * n):
         cases.append(_threads_case(rng))
     for _ in range(50 * n):
         cases.append(_ppid_map_case(rng))
@@ -393,9 +443,11 @@ def gen_cases(rng, tier):
         cases.append(dict(_name_enc_case(rng, enc), comm=b"caf\xc3\xa9".hex()))
         for _ in range(24 * n):
             cases.append(_name_enc_case(rng, enc))
+    for _ in range(50 * n):
+        cases.append(_name_hist_case(rng))
     for _ in range(40 * n):
         cases.append(_race_case(rng))
-    for _ in range(120 * n):
+    for _ in range(100 * n):
         cases.append(_raw_stat_case(rng))
     for _ in range(40 * n):
         cases.append(_raw_threads_case(rng))
@@ -464,6 +516,17 @@ def _pos(n):
 
 def coq_term(case):
     k = case["kind"]
+    if k == "name_hist":
+        xs = []
+        for st in case["steps"]:
+            base = {"nfields": 52, "state": st["state"], "ppid": 1, "ttytxt": "0", "utime": 1, "stime": 2, "cutime": 3,
+                    "cstime": 4, "starttime": st["starttime"], "processor": 0, "blkio": 0}
+            rec = _kstat(case["pid"], bytes.fromhex(st["comm"]), _after(base))
+            sk = {"data": "SKData", "gone": "SKGone", "denied": "SKDenied"}[st["stat"]]
+            cmd = {"EACCES": "CEACCES", "ESRCH": "CESRCH", "ENOENT": "CENOENT"}.get(st["cmd"]) or \
+                "(CData %s)" % G.by(bytes.fromhex(st["cmd"]))
+            xs.append("(%s, %s, %s)" % (rec, sk, cmd))
+        return "run_name_hist %s" % G.lst(xs)
     if k == "name_enc":
         return "run_name_enc %s %s" % ({"utf-8": "Utf8", "ascii": "Ascii", "latin-1": "Latin1"}[case["enc"]],
                                        _kstat(case["pid"], bytes.fromhex(case["comm"]), _after(case)))
@@ -525,7 +588,7 @@ def coq_struct(case, raw):
     k = case["kind"]
     if k == "stat":
         return {"printed": raw[0], "procstat": raw[1], "model": raw[2], "spec": raw[3]}
-    if k in ("status", "ppid_map", "stat_race", "name_enc"):
+    if k in ("status", "ppid_map", "stat_race", "name_enc", "name_hist"):
         return {"printed": raw[0], "model": raw[1], "spec": raw[2]}
     if k == "threads":
         return {"printed": raw[0], "own": raw[1], "model": raw[2], "spec": raw[3]}
@@ -573,6 +636,14 @@ def judge(case, coq, impl):
     model, spec = coq["model"], coq["spec"]
     if case.get("expect_spec") and spec is None:
         return Verdict("corr", "harness: the specification does not apply to a generated kernel record (wf false)")
+    if k == "name_hist":
+        for i, (got, m, sp) in enumerate(zip(impl, model, spec)):
+            if sp is not None and got != sp:
+                return Verdict("violation", "name() call %d on the same object is not what the kernel state at that moment says" % (i + 1))
+        for i, (got, m) in enumerate(zip(impl, model)):
+            if got != m:
+                return Verdict("corr", "name() call %d: implementation differs from the model" % (i + 1))
+        return Verdict("ok")
     if k == "name_enc":
         want_str, want_bytes = spec
         if impl[0] != want_str:
@@ -719,12 +790,14 @@ def _impl_run(case, coq, env):
     _pslinux.CLOCK_TICKS = case.get("clk", real_clk)
     had_open = "open" in vars(_common)
     # psutil._common.open_binary / open_text resolve `open` in psutil._common's globals first
-    state = {"plan": {}, "denied": set()}
+    state = {"plan": {}, "denied": set(), "err": {}}
 
     def fake_open(path, *a, **kw):
         if isinstance(path, str):
             if path in state["denied"]:
                 raise _oserr("EACCES", path)
+            if path in state["err"]:
+                raise _oserr(state["err"][path], path)
             plan = state["plan"].get(path)
             if plan:
                 what = plan.pop(0)
@@ -781,6 +854,41 @@ def _impl_run(case, coq, env):
             finally:
                 os.scandir, os.stat = real_scandir, real_stat
                 _psposix.get_terminal_map.cache_clear()
+        if k == "name_hist":
+            pid = case["pid"]
+            fp.add(pid)
+            spath = os.path.join(root, str(pid), "stat")
+            cpath = os.path.join(root, str(pid), "cmdline")
+            p = None
+            out = []
+            for st, printed in zip(case["steps"], coq["printed"]):
+                # the kernel state of this moment
+                state["err"].clear()
+                if st["stat"] == "gone":
+                    if os.path.exists(spath):
+                        os.remove(spath)
+                else:
+                    _write(spath, unB(printed))
+                    if st["stat"] == "denied":
+                        state["err"][spath] = "EACCES"
+                if st["cmd"] in ("EACCES", "ESRCH"):
+                    _write(cpath, b"")
+                    state["err"][cpath] = st["cmd"]
+                elif st["cmd"] == "ENOENT":
+                    if os.path.exists(cpath):
+                        os.remove(cpath)
+                else:
+                    _write(cpath, bytes.fromhex(st["cmd"]))
+                if p is None:
+                    p = psutil.Process(pid)          # ONE object for the whole history
+                for t in st["touch"]:                # other entry points that also store self._name
+                    try:
+                        {"str": lambda: str(p), "repr": lambda: repr(p), "name": p.name,
+                         "as_dict": lambda: p.as_dict(attrs=["name"])}[t]()
+                    except Exception:  # noqa
+                        pass
+                out.append(outcome(p.name, B))
+            return out
         if k == "name_enc":
             pid = case["pid"]
             fp.add(pid)
